@@ -66,6 +66,7 @@ let rec ty_of (x : sexp) : ty =
   | L [A "arr"; t] -> TArr (ty_of t)
   | L [A "fun"; a; b] -> TFun (ty_of a, ty_of b)
   | L (A "rec" :: fs) -> TRec (rows_of fs)
+  | L [A "dict"; t] -> TDict (ty_of t)
   | L (A "enum" :: tags) -> TEnum (List.map str tags)
   | L [A "tvar"; A n] -> TVar (nat_of_int (int_of_string n))
   | L [A "forall"; t] -> TForall (ty_of t)
@@ -80,6 +81,7 @@ let prim_of = function
   | "lt" -> PLt | "le" -> PLe | "gt" -> PGt | "ge" -> PGe | "not" -> PNot
   | "concat" -> PConcat | "strlen" -> PStrLen | "arrlen" -> PArrLen | "arrat" -> PArrAt
   | "arrcat" -> PArrCat | "arrmap" -> PArrMap | "eq" -> PEq
+  | "recfields" -> PRecFields | "recvalues" -> PRecValues | "rechas" -> PRecHas | "recget" -> PRecGet
   | s -> failwith ("bad prim " ^ s)
 
 let rec tm_of (x : sexp) : tm =
@@ -148,6 +150,7 @@ let show_err = function
   | EBlame -> "Blame+"
   | EDivByZero -> "DivByZero"
   | EIndex -> "Index"
+  | EKeyMissing -> "KeyMissing"
   | EIncomparable -> "Incomparable"
   | EUnmodelled -> "Unmodelled"
 
@@ -173,6 +176,7 @@ let rec atm_of (x : sexp) : atm =
   | L [A "aannt"; e; t] -> AAnnT (atm_of e, ty_of t)
   | L [A "auntyped"; u] -> AUntyped (tm_of u)
   | L [A "acast"; e; t] -> ACast (atm_of e, ty_of t)
+  | L [A "asub"; e; t] -> ASub (atm_of e, ty_of t)
   | _ -> failwith "bad certificate"
 
 (* cert mode: <certificate> TAB <type> TAB <term>.  The certificate must be accepted by the extracted
